@@ -109,6 +109,15 @@ static Verdict run_c08(const Case &c)
       size_t len = (size_t)r.below(200);
       hc.pos = (size_t)r.below(8);
       hc.file = expand(r.next(), hc.pos + len, 0);
+      if (i > 0 && c.geti("samestream") && r.below(3) == 0)
+      {
+        // the stream of the previous call is handed over as it was left: at its end. The tag covers "the bytes from
+        // the current file position to end of file": none.
+        hc.same_stream = true;
+        len = 0;
+        hc.file = calls.back().file;
+        hc.pos = hc.file.size();
+      }
       bytes tag = ref::hmac(hc.hmode, hc.key, hc.file.data() + hc.pos, len);
       hc.kind = (int)r.below(2);
       if (hc.kind == 1)
@@ -125,7 +134,13 @@ static Verdict run_c08(const Case &c)
       calls.push_back(hc);
     }
     v.nontrivial = true;
-    v.distinct = fnv64("seq" + c.get("pseed"));
+    v.distinct = fnv64("seq" + c.get("pseed") + c.get("samestream"));
+    for (auto &hc : calls)
+      if (hc.same_stream)
+      {
+        v.classes.push_back("call_on_a_stream_left_at_its_end_by_the_previous_call");
+        break;
+      }
     std::vector<bytes> got = wapi::hmac_seq(calls, (int)c.geti("refill", 2));
     for (int i = 0; i < n; i++)
       if (got[i] != want[i])
@@ -217,6 +232,7 @@ static Case gen_c08()
     c.seti("n", g::range(2, 6));
     c.set("pseed", std::to_string(g::u64()));
     c.seti("refill", g::oneof<long>({1, 2, 4}));
+    c.seti("samestream", g::coin(40) ? 1 : 0);
     return c;
   }
   c.set("kind", k < 30 ? "write" : "msg");
